@@ -669,7 +669,7 @@ impl<R: BufRead> Read for Dearmor<R> {
                     self.current_part = Part::Done(b);
                     return Ok(read);
                 }
-                Part::Temp => panic!("invalid state"),
+                Part::Temp => return Err(io::Error::other("Dearmor errored")),
             }
         }
     }
